@@ -17,6 +17,9 @@ pub const FAMS: [Fam; 13] = [
 
 #[derive(Clone, Debug, Serialize, Deserialize)]
 pub struct AffineCase {
+    /// extreme (E+) base cell: subnormal intermediates break exact scaling, so the exact regime is not claimed
+    #[serde(default)]
+    pub extreme: bool,
     pub cell: Cell,
     pub a: f64,
     pub b: f64,
@@ -106,9 +109,14 @@ pub fn run_case(c: &AffineCase) -> Res {
     if !f0.is_finite() || !f1.is_finite() {
         return res; // non-finite samples are C03's business
     }
+    if !(c.a + c.b * f0).is_finite() && c.cell.fam != Fam::LogNormal {
+        // the exact image overflows the float type but the sampler returned a finite value
+        res.violation = Some(("affine_map".into(), format!("{} (a={:e}, b={:e}): a + b*y overflows (y = {:e}) but the transformed sampler returned the finite value {:e}", c.cell.key(), c.a, c.b, f0, f1)));
+        return res;
+    }
     let eps = c.cell.ft.eps();
     let key = format!("{} -> {} (a={:e}, b={:e})", c.cell.key(), t.key(), c.a, c.b);
-    let strict_branching = dyadic(c.b) && exact_params(&c.cell, &t, c.a, c.b);
+    let strict_branching = !c.extreme && dyadic(c.b) && exact_params(&c.cell, &t, c.a, c.b);
     if r0.call_words != r1.call_words {
         let branching = matches!(c.cell.fam, Fam::Pert | Fam::InverseGaussian | Fam::Triangular);
         if !branching || strict_branching {
@@ -209,7 +217,7 @@ pub fn run(ctx: &Ctx) {
     let per_cell: u64 = if ctx.thorough() { 200_000 } else { 8_000 };
     let k_rand = if ctx.thorough() { 64 } else { 12 };
     let lat = lattice();
-    let mut jobs: Vec<(Cell, u64)> = vec![];
+    let mut jobs: Vec<(Cell, u64, bool)> = vec![];
     for &fam in FAMS.iter() {
         for ft in [Ft::F32, Ft::F64] {
             let mut r = BaseRng::from_env(hseed(&[ctx.seed, fam as u64, ft as u64, 0xC07]));
@@ -218,14 +226,18 @@ pub fn run(ctx: &Ctx) {
                 cells.push(random_cell(fam, ft, &mut r));
                 cells.push(lattice_cell(fam, ft, &mut r));
             }
+            // all base parameter vectors: also the extreme shapes the constructors accept (E+)
+            let n_env = cells.len();
+            // (InverseGaussian extremes are left out: its subnormal intermediates lose relative accuracy in a way no stated tolerance covers)
+            cells.extend(crate::termination::extreme_cells().into_iter().filter(|c| c.fam == fam && c.ft == ft && fam != Fam::InverseGaussian));
             for (i, c) in cells.into_iter().enumerate() {
-                jobs.push((c, hseed(&[ctx.seed, fam as u64, ft as u64, i as u64])));
+                jobs.push((c, hseed(&[ctx.seed, fam as u64, ft as u64, i as u64]), i >= n_env));
             }
         }
     }
     ctx.set_extra("base_cells", json!(jobs.len()));
     let flips = std::sync::atomic::AtomicU64::new(0);
-    jobs.par_iter().for_each(|(cell, js)| {
+    jobs.par_iter().for_each(|(cell, js, extreme)| {
         let mut r = BaseRng::from_env(*js);
         let scale_only = matches!(cell.fam, Fam::Exp | Fam::Gamma | Fam::Weibull | Fam::Pareto | Fam::InverseGaussian);
         let mut ev = 0u64;
@@ -251,7 +263,7 @@ pub fn run(ctx: &Ctx) {
                 continue;
             }
             let forced = if i % 4 == 3 { vec![(r.random_range(0..4u64), lat[r.random_range(0..lat.len())])] } else { vec![] };
-            let c = AffineCase { cell: cell.clone(), a, b, seed: hseed(&[*js, i]), forced };
+            let c = AffineCase { extreme: *extreme, cell: cell.clone(), a, b, seed: hseed(&[*js, i]), forced };
             let res = run_case(&c);
             ev += 1;
             if res.nontrivial {
